@@ -39,7 +39,7 @@ var kinds = map[string]string{
 	"s.Returns = promParser.ValueTypeVector|s.IsDead = false|s.IsDeadReason = \"\"|s.AlwaysReturns = false|s.FixedLabels = true|s.IncludedLabels = nil|s.GuaranteedLabels = nil|" +
 		"for _, name := range absentLabels(n.Args[0]) { s = includeLabel(s, name) s = guaranteeLabel(s, name) }|s = excludeAllLabels(...)": "absent",
 	"s.Returns = promParser.ValueTypeVector|if len(s.Call.Args) == 0 { s.FixedLabels = true s.AlwaysReturns = true s.IncludedLabels = nil s.GuaranteedLabels = nil s = excludeAllLabels(...) } else { " + gsel + " }": "timelike",
-	"s.Returns = promParser.ValueTypeVector|s = guaranteeLabel(s, n.Args[1].(*promParser.StringLiteral).Val)": "arg1",
+	"s.Returns = promParser.ValueTypeVector|if dst, ok := stringLiteralValue(n.Args[1]); ok { s = guaranteeLabel(s, dst) }":                                                                                           "arg1",
 	"s.Returns = promParser.ValueTypeVector|s.IncludedLabels = nil|s.GuaranteedLabels = nil|s.FixedLabels = true|s.AlwaysReturns = true|" +
 		"for _, vs := range walkNode(expr, n.Args[0]) { if vs.KnownReturn { s.ReturnedNumber = vs.ReturnedNumber s.KnownReturn = true } }|s = excludeAllLabels(...)": "vector",
 	"s.Returns = promParser.ValueTypeNone|s.Call = nil": "default",
@@ -112,6 +112,36 @@ func main() {
 		fatal("absentLabels has an unrecognised body: %s", fp)
 	}
 	o.json["absent_labels_body"] = "recognised"
+
+	// stringLiteralValue (fix 53ade46): the model's [lit_val]
+	sf := findFunc(p, "", "stringLiteralValue")
+	if sf == nil {
+		fatal("stringLiteralValue not found")
+	}
+	const stringLiteralValueBody = "for { switch e := expr.(type) { case *promParser.ParenExpr: expr = e.Expr case *promParser.StringLiteral: return e.Val, true default: return \"\", false } }"
+	if fp := bodyFingerprint(sf.Body.List); fp != stringLiteralValueBody {
+		fatal("stringLiteralValue has an unrecognised body: %s", fp)
+	}
+	// the count_values case of walkAggregation: the model's [agg_src] ACountValues
+	wa := findFunc(p, "", "walkAggregation")
+	if wa == nil {
+		fatal("walkAggregation not found")
+	}
+	const countValuesBody = "for _, s = range parseAggregation(expr, n) { s.Aggregation = n s.Operation = \"count_values\" param, ok := stringLiteralValue(n.Param) if ok { s = includeLabel(s, param) s = guaranteeLabel(s, param) } if n.Without || param != labels.MetricName { s = excludeMetricName(s, n) } src = append(src, s) }"
+	foundCV := false
+	for _, st := range onlySwitch(wa).Body.List {
+		cc := st.(*ast.CaseClause)
+		if len(cc.List) == 1 && norm(src(cc.List[0])) == "promParser.COUNT_VALUES" {
+			foundCV = true
+			if fp := bodyFingerprint(cc.Body); fp != countValuesBody {
+				fatal("walkAggregation: the count_values case has an unrecognised body: %s", fp)
+			}
+		}
+	}
+	if !foundCV {
+		fatal("walkAggregation: no count_values case")
+	}
+	o.json["count_values_body"] = "recognised"
 
 	// guaranteedLabelsMatches
 	gl := []string{}
